@@ -454,6 +454,20 @@ fn config_failures(st: &mut Stats) -> Vec<(String, Value)> {
         ("malformed-base", run_cli(&dir.path, "main.oal", "out.yaml", Some("bad.yaml"))),
         ("missing-conf", run_cli_conf(&dir.path, "absent.toml")),
     ];
+    let mut cases = cases;
+    // a target that cannot take the document: a device that accepts the open and fails every write with ENOSPC
+    // (the failure surfaces only when the bytes are really written), and a directory
+    if std::path::Path::new("/dev/full").exists() {
+        cases.push(("target-device-full", run_cli(&dir.path, "main.oal", "/dev/full", None)));
+        std::fs::write(
+            dir.path.join("big.oal"),
+            (0..400).map(|i| format!("res /r{i} on get -> <{{ 'p{i} num }}>;\n")).collect::<String>(),
+        )
+        .unwrap();
+        cases.push(("target-device-full-large-document", run_cli(&dir.path, "big.oal", "/dev/full", None)));
+    }
+    std::fs::create_dir_all(dir.path.join("adir")).unwrap();
+    cases.push(("target-is-a-directory", run_cli(&dir.path, "main.oal", "adir", None)));
     for (name, r) in cases {
         st.inc("config_failure_cases");
         let bytes = std::fs::read(dir.path.join("out.yaml")).unwrap_or_default();
